@@ -64,7 +64,7 @@ pub fn run(ctx: &mut Ctx) {
 										fam.nontrivial()
 									}
 								}
-								Ok(Err(m)) | Err(m) => fam.fail(json!({"value": v.encode()}), m, None),
+								Ok(Err(m)) | Err(m) => fam.fail(json!({"value": v.encode(), "route_push": as_key}), m, None),
 							}
 						}
 					}
